@@ -240,7 +240,7 @@ func (p *Program) ensureInitLocked(pkg *ssa.Package) {
 		return
 	}
 	p.initBusy[pkg] = true
-	defer func() { p.initBusy[pkg] = false; p.initDone[pkg] = true }()
+	defer func() { p.initBusy[pkg] = false; p.initDone[pkg] = true; p.applyGlobalOverrides(pkg) }()
 	p.build(pkg)
 	initFn := pkg.Func("init")
 	if initFn == nil || initFn.Blocks == nil {
